@@ -64,10 +64,19 @@ def install_hash(I):
             out = [z3.IntVal(len(v) + 50)]
             for x in v:
                 out += leaves(x)
+            if len(v) <= 4 and all(isinstance(x, (int, z3.ExprRef)) for x in v):
+                out += [z3.IntVal(-9)] * (4 - len(v))          # fixed arity for short scalar tuples (merged alternatives are padded the same way)
             return out
         return [code(getattr(v, "__name__", None) or repr(type(v)))]
 
     def h(it, a, k, pc):
+        if isinstance(a[0], Guarded):
+            # one application per alternative: alternatives of different shape must not be padded into one argument vector
+            alts = [(c, h(it, [x], k, pc)) for c, x in a[0].alts if not isinstance(x, Undefined)]
+            r = alts[-1][1]
+            for c, x in reversed(alts[:-1]):
+                r = z3.If(c, x, r)
+            return r
         args = leaves(a[0])
         name = f"H{len(args)}"
         f = z3.Function(name, *([z3.IntSort()] * len(args)), z3.IntSort())
